@@ -713,9 +713,81 @@ def job_formcount(job) -> report.JobResult:
     return _run(job, eng, fn, Shims(), lambda m: {"parts": cur().path_notes.get("parts"), "asgi_message_bytes": cur().path_notes.get("asgi_message_bytes")})
 
 
+def job_formlimit(job) -> report.JobResult:
+    """Request subclasses that pass max_form_memory_size through the documented `_parse_multipart` hook (the way the repository's own tests do): a form
+    of one text field and one uploaded file, both stacks must agree on accept / 413 for every limit.  The limit is a solver-chosen value from an
+    enumerated list around the field size and the file size, the ASGI message size likewise; the rest is concrete (a differential RECIPE)."""
+    import asyncio
+    eng = Engine(budget_s=600)
+    FIELD, FILE = 16, 4096
+    LIMITS = [None, 0, FIELD - 1, FIELD, FIELD + 1, 1024, FIELD + FILE - 1, FIELD + FILE, 1 << 20]
+
+    def run_both(limit, msg):
+        body = (b'--bnd\r\nContent-Disposition: form-data; name="note"\r\n\r\n' + b"n" * FIELD + b"\r\n"
+                b'--bnd\r\nContent-Disposition: form-data; name="upload"; filename="big.bin"\r\nContent-Type: application/octet-stream\r\n\r\n'
+                + bytes(i % 251 for i in range(FILE)) + b"\r\n--bnd--\r\n")
+        ctype = "multipart/form-data; boundary=bnd"
+        import baize.multipart_helper as MH
+        from baize.datastructures import FormData, UploadFile
+
+        class WLimited(WQ.Request):
+            def _parse_multipart(self, boundary, charset):
+                return FormData(MH.parse_stream(self.stream(), boundary, charset, file_factory=UploadFile, max_form_memory_size=limit))
+
+        class ALimited(AQ.Request):
+            async def _parse_multipart(self, boundary, charset):
+                return FormData(await MH.parse_async_stream(self.stream(), boundary, charset, file_factory=UploadFile, max_form_memory_size=limit))
+
+        class Inp:
+            def __init__(self):
+                self.pos = 0
+
+            def read(self, k=-1):
+                k = len(body) if k is None or k < 0 else k
+                out_ = body[self.pos:self.pos + k]
+                self.pos += len(out_)
+                return out_
+
+        def norm(v):
+            return [(k, x if isinstance(x, str) else ("file", x.filename, x.read())) for k, x in v.multi_items()]
+        try:
+            wv = ("ok", norm(WLimited({"REQUEST_METHOD": "POST", "CONTENT_TYPE": ctype, "wsgi.input": Inp(), "QUERY_STRING": "", "CONTENT_LENGTH": str(len(body))}).form))
+        except HTTPException as ex:
+            wv = ("http", ex.status_code)
+        msgs = [body[i:i + msg] for i in range(0, len(body), msg)]
+
+        async def main():
+            it = iter([{"type": "http.request", "body": c, "more_body": i < len(msgs) - 1} for i, c in enumerate(msgs)])
+
+            async def receive():
+                return next(it)
+            form = await ALimited({"type": "http", "method": "POST", "headers": [(b"content-type", ctype.encode())], "path": "/", "query_string": b""}, receive).form
+            return [(k, x if isinstance(x, str) else ("file", x.filename, await x.aread())) for k, x in form.multi_items()]
+        try:
+            av = ("ok", asyncio.run(main()))
+        except HTTPException as ex:
+            av = ("http", ex.status_code)
+        return wv, av
+
+    def fn():
+        e = cur()
+        limit = LIMITS[e.choose(len(LIMITS), "limit")]
+        msg = [65536, 100][e.choose(2, "msg")]
+        e.path_notes["max_form_memory_size"] = limit
+        e.path_notes["asgi_message_bytes"] = msg
+        wv, av = run_both(limit, msg)
+        if wv != av:
+            raise Fail("form-differs-between-stacks", f"limit {limit}: wsgi {str(wv)[:60]} vs asgi {str(av)[:60]}")
+        want = "http" if limit is not None and limit < FIELD else "ok"
+        if wv[0] != want:
+            raise Fail("limit-counts-something-else-than-field-bytes", f"limit {limit}: {wv[0]} (field bytes {FIELD}, file bytes {FILE})")
+    return _run(job, eng, fn, Shims(), lambda m: {"max_form_memory_size": cur().path_notes.get("max_form_memory_size"), "asgi_message_bytes": cur().path_notes.get("asgi_message_bytes")})
+
+
 def jobs(tier: str):
     b = META["bounds"][tier]
-    out = [dict(name="reqbody/form-part-count-at-the-limit", family="formcount", recipe="form", weight=60)]
+    out = [dict(name="reqbody/form-part-count-at-the-limit", family="formcount", recipe="form", weight=60),
+           dict(name="reqbody/form-memory-limit-through-the-subclass-hook", family="formlimit", recipe="form", weight=60)]
     for recipe in ("response", "text-bytes", "text-str", "html", "json", "redirect"):
         out.append(dict(name=f"resp/{recipe}/status", family="resp", recipe=recipe, what="status", weight=70))
         for n in range(0, b["text_chars"] + 1):
@@ -776,7 +848,7 @@ def jobs(tier: str):
 
 
 def run_job(job):
-    return {"resp": job_resp, "stream": job_stream, "file": job_file, "reqview": job_reqview, "apps": job_apps, "reqbody": job_reqbody, "formcount": job_formcount}[job["family"]](job)
+    return {"resp": job_resp, "stream": job_stream, "file": job_file, "reqview": job_reqview, "apps": job_apps, "reqbody": job_reqbody, "formcount": job_formcount, "formlimit": job_formlimit}[job["family"]](job)
 
 
 def replay(rec) -> int:
